@@ -84,7 +84,7 @@ class C13(Property):
     technique = "Lean 4 model + inverse-law proof; differential correspondence; exhaustive two-level names"
     exhaustive_note = ""
     quick_n = 25000
-    thorough_n = 150000
+    thorough_n = 300000
 
     def _case(self, tree, starts):
         return {"tree": tree, "starts": starts}
